@@ -2,9 +2,11 @@
 
 Exit status 0: all Gen files are current.  Exit status 3: some source construct is not in the
 supported subset (fail-closed) -- the caller treats this as a broken proof obligation.
-Usage: gen.py [--repo /repo] [--out /verif/coq/Gen] [--only IndexGen.v]
+Usage: gen.py [--repo /repo] [--out /verif/coq/Gen] [--only IndexGen.v | JoinGen.v | FilterPairGen.v | WrapperGen.v]
 (--only IndexGen.v writes just that file and gen_status_index.json; without it IndexGen.v is
-generated together with the other targets and reported in gen_status.json)
+generated together with the other targets and reported in gen_status.json.
+ --only FilterPairGen.v writes just Gen/FilterPairGen.v and gen_status_pair.json;
+ --only WrapperGen.v writes just Gen/WrapperGen.v and gen_status_wrapper.json)
 """
 import argparse
 import hashlib
@@ -284,8 +286,10 @@ JOIN_HELPERS = [('py_stringsimjoin/utils/generic_helper.py',
                  ['validate_threshold', 'validate_sim_measure_type', 'validate_comp_op_for_sim_measure'])]
 
 
-def gen_join(repo):
-    """JoinGen.v: (text, info)."""
+def gen_join(repo, cores=None):
+    """JoinGen.v: (text, info).  If `cores` is a dict it receives, per generated function,
+    (python parameters, py2coq parameter spec, {function parameter: arity}) -- what a caller
+    (wrappers.py) needs to call it."""
     import ast
     import methods
     import joins
@@ -331,10 +335,13 @@ def gen_join(repo):
         for var, o in prep.objs.items():
             obj_locals[var] = [a for a, e in o.attr.items()
                                if isinstance(e, ast.Name) and e.id == '%s_%s' % (var, a)]
+        tspecs = {}
         text, sigs = py2coq.translate_fundefs(
             [fn], known_sigs=specs, fun_params=prep.fun_params,
             fun_tables={'COMP_OP_MAP': 'comp_op_lookup'}, obj_locals=obj_locals,
-            fresh_funs=fresh, strict_escape=True)
+            fresh_funs=fresh, strict_escape=True, specs=tspecs)
+        if cores is not None:
+            cores[new] = (tspecs[new][0], tspecs[new][1], dict(prep.fun_params))
         out.append(text)
         info[new] = {'source': rel, 'function': fname, 'signature': sigs[new], 'rewrites': prep.notes,
                      'python': ast.unparse(fn)}
@@ -343,6 +350,36 @@ def gen_join(repo):
     sha = hashlib.sha256('\0'.join(srcs[r] for r in rels).encode()).hexdigest()
     hdr = JOIN_HEADER % (', '.join(rels), sha, '\n'.join(notes_txt).replace('*)', '* )'))
     return hdr + '\n'.join(out), {'sources': rels, 'sha256': sha, 'functions': info}
+
+
+def gen_wrapper(repo):
+    """WrapperGen.v: (text, info)."""
+    import wrappers
+    cores = {}
+    gen_join(repo, cores)
+    srcs = {}
+    text, info = wrappers.gen_wrappers(
+        repo, {k: (v[0], v[1]) for k, v in cores.items()}, {k: v[0] for k, v in cores.items()},
+        {k: v[2] for k, v in cores.items()}, srcs)
+    rels = sorted(srcs)
+    sha = hashlib.sha256('\0'.join(srcs[r] for r in rels).encode()).hexdigest()
+    notes = []
+    for k, v in info.items():
+        notes += ['     %s: %s' % (k, n) for n in v['rewrites']]
+    hdr = wrappers.HEADER % (', '.join(rels), sha, '\n'.join(notes).replace('*)', '* )').replace('(*', '( *'))
+    return hdr + text, {'sources': rels, 'sha256': sha, 'functions': info}
+
+
+def gen_wrapper_file(repo, out):
+    """Gen/WrapperGen.v; returns its status entry.  On failure a file that cannot compile is left."""
+    try:
+        text, info = gen_wrapper(repo)
+        changed = write_if_changed(os.path.join(out, 'WrapperGen.v'), text)
+        return dict(info, changed=changed)
+    except (py2coq.Unsupported, SyntaxError, OSError) as e:
+        write_if_changed(os.path.join(out, 'WrapperGen.v'),
+                         '(* translation failed: %s *)\nTranslation_failed.\n' % str(e).replace('*)', '* )'))
+        return {'error': '%s: %s' % (type(e).__name__, e)}
 
 
 def comp_op_map(repo):
@@ -375,6 +412,20 @@ def comp_op_map(repo):
     raise py2coq.Unsupported('COMP_OP_MAP not found')
 
 
+def gen_pair_file(repo, out):
+    """Gen/FilterPairGen.v (pairs.py); returns its status entry.  On failure a file that cannot
+    compile is left behind, so that no stale model survives."""
+    import pairs
+    try:
+        text, info = pairs.gen_filter_pair(repo, preprocess)
+        changed = write_if_changed(os.path.join(out, 'FilterPairGen.v'), text)
+        return dict(info, changed=changed)
+    except (py2coq.Unsupported, SyntaxError, OSError) as e:
+        write_if_changed(os.path.join(out, 'FilterPairGen.v'),
+                         '(* translation failed: %s *)\nTranslation_failed.\n' % str(e).replace('*)', '* )'))
+        return {'error': '%s: %s' % (type(e).__name__, e)}
+
+
 def write_if_changed(path, text):
     if os.path.exists(path) and open(path).read() == text:
         return False
@@ -389,11 +440,30 @@ def main():
     ap.add_argument('--repo', default='/repo')
     ap.add_argument('--out', default=os.path.join(os.path.dirname(os.path.abspath(__file__)),
                                                   '..', '..', 'coq', 'Gen'))
-    ap.add_argument('--only', default=None, help='regenerate just this Gen file (IndexGen.v)')
+    ap.add_argument('--only', default=None, help='regenerate just this Gen file (IndexGen.v | JoinGen.v | FilterPairGen.v)')
     args = ap.parse_args()
     os.makedirs(args.out, exist_ok=True)
     status = {}
     ok = True
+    if args.only == 'WrapperGen.v':
+        st = {'WrapperGen.v': gen_wrapper_file(args.repo, args.out)}
+        with open(os.path.join(args.out, 'gen_status_wrapper.json'), 'w') as f:
+            json.dump(st, f, indent=1, sort_keys=True)
+        print(json.dumps({k: ('error: ' + v['error']) if 'error' in v else
+                          ('changed' if v.get('changed') else 'unchanged') for k, v in st.items()}))
+        sys.exit(0 if 'error' not in st['WrapperGen.v'] else 3)
+    if args.only == 'FilterPairGen.v':
+        st = {'FilterPairGen.v': gen_pair_file(args.repo, args.out)}
+        with open(os.path.join(args.out, 'gen_status_pair.json'), 'w') as f:
+            json.dump(st, f, indent=1, sort_keys=True)
+        print(json.dumps({k: ('error: ' + v['error']) if 'error' in v else
+                          ('changed' if v.get('changed') else 'unchanged') for k, v in st.items()}))
+        sys.exit(0 if 'error' not in st['FilterPairGen.v'] else 3)
+    status['FilterPairGen.v'] = gen_pair_file(args.repo, args.out)
+    ok = ok and 'error' not in status['FilterPairGen.v']
+    if args.only is None:
+        status['WrapperGen.v'] = gen_wrapper_file(args.repo, args.out)
+        ok = ok and 'error' not in status['WrapperGen.v']
     try:
         text, info = gen_index(args.repo)
         changed = write_if_changed(os.path.join(args.out, 'IndexGen.v'), text)
